@@ -144,6 +144,17 @@ CHECKS.update({
             "DESIGN.md section 3 C08"),
 })
 
+CHECKS.update({
+    "C02": ("Bounded symbolic execution of the labelling logic around negative generation: the real body of the openapi_cases composite is "
+            "driven with a stub draw (symbolic presence of a value per location, 4 operation shapes, both mode lists) and the case / component "
+            "labels, the positive fallback for parts that cannot be negated and the skip/discard decision are compared with the property; the "
+            "output filter of negative_schema is captured and decided for symbolic numbers against the declared (draft 4) meaning; the strategy "
+            "caches are run on symbolic request sequences; MutationContext.mutate is driven by symbolic draw choices (thorough tier). That a "
+            "drawn instance of a mutated schema is invalid is the run-time filter's job (hypothesis-jsonschema and jsonschema trusted).",
+            "CrossHair symbolic execution (z3) of the openapi_cases body / generate_parameter / any_negated_values / negative_schema filter / mutate with stubbed Hypothesis draws",
+            "DESIGN.md section 3 C02"),
+})
+
 NOT_APPLICABLE = {
     "C13": "Seed reproducibility is a 2-run hyper-property of the whole program through Hypothesis' engine, its PRNG, identity-keyed caches and "
            "set iteration order; none of it can be made a symbolic variable of a bounded encoding, and the only solver-shaped fragment "
